@@ -65,6 +65,7 @@ M.axiom('subtree-reflexive', 'all(in_subtree(n, n) for n in anyref("Node"))')
 M.assume('A-DISPATCH: Walker.accept(node) calls accept_<class of node>(node) and returns its result (xtuml/tools.py); the handler contracts '
          'of this module are the cases of the induction, the assumed contract of accept() is the induction hypothesis')
 M.assume('A-TREE: the syntax tree is a tree (children of one node have disjoint subtrees); produced by the PLY parser actions')
+M.assume('A-NAV-KIND: a navigation one(x).A[r1].B[r2]() yields None or an instance of the class named by its last step (contracts.c09 / bounded c09)')
 M.assume('A-RESOLVED: class key letters, association numbers and core type names used by the action exist in the model (the property '
          'quantifies over name-resolved programs)')
 
